@@ -19,7 +19,7 @@ while read -r PATCH IDS; do
   if grep -q "extract.c\|build.rs" $PATCH; then cargo clean --release --offline -p signal-hook >/dev/null 2>&1; fi
   if ! cargo build --release --offline >$W/build.log 2>&1; then echo "== $name: build failed: $(grep -m1 '^error' $W/build.log)"; else
     for id in $IDS; do
-      out=$(VERIF_SEED=${VERIF_SEED:-0} $W/target/release/sigverif check $id quick 2>&1); rc=$?
+      out=$(VERIF_SEED=${VERIF_SEED:-0} $W/target/release/sigverif check $id ${TIER:-quick} 2>&1); rc=$?
       echo "== $name $id rc=$rc: $(echo "$out" | grep -m1 'violation key' | cut -c1-150)"
     done
   fi
